@@ -826,9 +826,19 @@ class ExcelInPython:
         return find_elem.span(0)[0] + 1 if find_elem else '#VALUE!'
 
     def _excel_value_to_string(self, value: Any):
+        # the text form of a value that is joined to a text by & or CONCATENATE
+        if isinstance(value, self.EmptyCell):
+            return ''
+
+        if isinstance(value, bool):
+            return 'TRUE' if value else 'FALSE'
+
         if isinstance(value, (datetime.datetime)):
             base_date = datetime.datetime(1899, 12, 30)
             return str((value - base_date).days)
+
+        if isinstance(value, float) and value.is_integer() and abs(value) < 1e15:
+            return str(int(value))
 
         return str(value)
 
